@@ -256,6 +256,10 @@ def run(ctx):
                     ok = q.arm_always_err(b, set_edge)
                     ctx.inst('T4', 'color-profile#gamma', ok, 'flags & 1 set -> %s' % ('Err on every path' if ok else 'NOT always Err'),
                              tm['span'], key=b.name + '|T4|gamma-flag')
+                    # ... and for every profile type: the test lies on every path to an Ok result
+                    dom = common.dominates_ok_returns(b, sw)
+                    ctx.inst('T4', 'color-profile#gamma-always', dom, 'the fixed-gamma test %s every non-error return (it must apply to all profile types)'
+                             % ('dominates' if dom else 'does NOT dominate'), tm['span'], key=b.name + '|T4|gamma-always')
             if d[0] == 'call' and d[1].endswith('ColorProfileType as std::cmp::PartialEq>::eq'):
                 rhs = [x for x in d[2] if x[0] == 'agg']
                 lhs = [x for x in d[2] if x[0] == 'call' and x[1].endswith('parse_color_profile_type')]
@@ -336,6 +340,12 @@ def run(ctx):
                 ctx.inst('T5', 'tileset-pixels#none-branch', ok, 'tileset.pixels == None -> %s' % ('Err on every path' if ok else
                          'NOT an error (tilesets without embedded pixels are accepted or skipped)'), tm['span'],
                          key=ctx.key(b.name, 'T5', 'none-branch', ''))
+                # ... for every tileset: the test lies on every path to the insertion of the validated tileset
+                ins_ = q.calls(b, 'std::collections::HashMap::insert')
+                dom_ = bool(ins_) and all(b.cfg.dominates(sw, i_.bb) for i_ in ins_)
+                ctx.inst('T5', 'tileset-pixels#test-always', dom_, 'the pixels-present test %s the insertion of the validated tileset (it must not be '
+                         'conditional on anything else, e.g. on an external-file reference)' % ('dominates' if dom_ else 'does NOT dominate'), tm['span'],
+                         key=ctx.key(b.name, 'T5', 'test-always', ''))
         for c in q.calls(b, 'std::option::Option::ok_or_else'):
             at = q.arg_terms(c)
             base, names = q.field_path(at[0])
